@@ -25,6 +25,7 @@ fn main() {
     match args[1].as_str() {
         "run" => run_file(&args[2], &args[3], args.get(4).and_then(|s| s.parse().ok()).unwrap_or(16)),
         "trace" => trace::main(&args[2..]),
+        "lock" => trace::lock_main(&args[2..]),
         "lockchild" => trace::lock_child(&args[2..]),
         _ => {
             eprintln!("unknown mode");
